@@ -4,6 +4,7 @@ import json
 import webob
 
 ADMIN = {'token': 'admin', 'roles': None}
+SERVICE = {'token': 'admin', 'roles': 'admin,service'}
 
 
 class Resp(object):
